@@ -1,8 +1,9 @@
 ---------------------------- MODULE TaskctlTrace ----------------------------
 (* Whole-binary trace validation: the unified event log of one `taskctl <pipeline>` process *)
 (* (internal/veriftrace, build tag verif) replayed through the actions of Taskctl.tla.       *)
-(*   cfg {n, deps, cls, ncmd, failAt}     st {s, v}      enter {s} / ret {s, failed}          *)
-(*   RunEnter {s} / RunExit {s}           CmdStart {s} / CmdEnd {s, err}    done {err, final} *)
+(*   cfg {n, deps, cls, ncmd, failAt, nvar, ctx, hb, ha, upFails}   st {s, v}   enter {s} / ret {s, failed} *)
+(*   RunEnter {s} / RunExit {s}     CmdStart {s, role} / CmdEnd {s, role, err}  (role tb cmd ta)             *)
+(*   CmdStart {c, role} / CmdEnd {c, role, err}  (role up cb ca down) done {err, final}      end {}          *)
 EXTENDS Taskctl, Json, TLCExt
 Log == ndJsonDeserialize("trace.ndjson")
 VARIABLE l
@@ -12,17 +13,28 @@ Is(e) == l <= Len(Log) /\ Log[l].e = e
 Consume == l' = l + 1
 ToSet(q) == {q[i] : i \in DOMAIN q}
 
+Zs == [s \in Stages |-> 0]
+RunInit0 == /\ status = [s \in Stages |-> "W"] /\ gerr = FALSE
+            /\ gpc = [s \in Stages |-> "none"] /\ rpc = [s \in Stages |-> "none"]
+            /\ pt = [s \in Stages |-> "start"] /\ role = [s \in Stages |-> "none"]
+            /\ done = Zs /\ rfail = [s \in Stages |-> FALSE] /\ ran = [s \in Stages |-> {}]
+            /\ upst = [c \in Ctxs |-> "no"] /\ dn = [c \in Ctxs |-> "no"]
 TInit == /\ TLCSet(1, 1) /\ l = 1
          /\ deps = [s \in Stages |-> {}] /\ cls = [s \in Stages |-> "OK"] /\ ncmd = [s \in Stages |-> 1] /\ failAt = [s \in Stages |-> 1]
-         /\ status = [s \in Stages |-> "W"] /\ gerr = FALSE /\ loop = FALSE
-         /\ gpc = [s \in Stages |-> "none"] /\ rpc = [s \in Stages |-> "none"]
-         /\ done = [s \in Stages |-> 0] /\ crun = [s \in Stages |-> FALSE] /\ rfail = [s \in Stages |-> FALSE]
-TReset == /\ Is("cfg") /\ (IF l = 1 THEN TRUE ELSE Log[l - 1].e = "done") /\ Ev.n = N
+         /\ nvar = [s \in Stages |-> 1] /\ ctx = Zs /\ hb = [s \in Stages |-> "none"] /\ ha = [s \in Stages |-> "none"]
+         /\ upFails = [c \in Ctxs |-> FALSE]
+         /\ RunInit0 /\ loop = FALSE
+TReset == /\ Is("cfg") /\ (IF l = 1 THEN TRUE ELSE Log[l - 1].e = "end") /\ Ev.n = N
           /\ deps' = [s \in Stages |-> ToSet(Ev.deps[s])] /\ cls' = [s \in Stages |-> Ev.cls[s]]
           /\ ncmd' = [s \in Stages |-> Ev.ncmd[s]] /\ failAt' = [s \in Stages |-> Ev.failAt[s]]
+          /\ nvar' = [s \in Stages |-> Ev.nvar[s]] /\ ctx' = [s \in Stages |-> Ev.ctx[s]]
+          /\ hb' = [s \in Stages |-> Ev.hb[s]] /\ ha' = [s \in Stages |-> Ev.ha[s]]
+          /\ upFails' = [c \in Ctxs |-> Ev.upFails[c]]
           /\ status' = [s \in Stages |-> "W"] /\ gerr' = FALSE /\ loop' = TRUE
           /\ gpc' = [s \in Stages |-> "none"] /\ rpc' = [s \in Stages |-> "none"]
-          /\ done' = [s \in Stages |-> 0] /\ crun' = [s \in Stages |-> FALSE] /\ rfail' = [s \in Stages |-> FALSE]
+          /\ pt' = [s \in Stages |-> "start"] /\ role' = [s \in Stages |-> "none"]
+          /\ done' = Zs /\ rfail' = [s \in Stages |-> FALSE] /\ ran' = [s \in Stages |-> {}]
+          /\ upst' = [c \in Ctxs |-> "no"] /\ dn' = [c \in Ctxs |-> "no"]
           /\ Consume
 TStLoop == /\ Is("st") /\ gpc[Ev.s] = "none" /\ Visit(Ev.s) /\ status'[Ev.s] = Ev.v /\ Consume
 TStDupCancel == /\ Is("st") /\ Ev.v = "C" /\ status[Ev.s] = "C" /\ Consume /\ UNCHANGED vars
@@ -31,13 +43,29 @@ TEnter == /\ Is("enter") /\ StageEnter(Ev.s) /\ Consume
 TRet == /\ Is("ret") /\ StageRet(Ev.s) /\ Ev.failed = rfail[Ev.s] /\ Consume
 TRunEnter == /\ Is("RunEnter") /\ RunEnter(Ev.s) /\ Consume
 TRunExit == /\ Is("RunExit") /\ RunExit(Ev.s) /\ Consume
-TCmdStart == /\ Is("CmdStart") /\ CmdStart(Ev.s) /\ Consume
-TCmdEnd == /\ Is("CmdEnd") /\ CmdEnd(Ev.s) /\ ((Ev.err # "nil") = rfail'[Ev.s]) /\ Consume
+\* a job of a stage's run (task hooks and commands carry the stage's name): the recorded role must
+\* be the one the run is at
+TCmdStart == /\ Is("CmdStart") /\ Ev.role \in {"tb", "cmd", "ta"} /\ NextOp(Ev.s) = Ev.role /\ CmdStart(Ev.s) /\ Consume
+TCmdEnd == /\ Is("CmdEnd") /\ Ev.role \in {"tb", "cmd", "ta"} /\ role[Ev.s] = Ev.role /\ CmdEnd(Ev.s)
+           /\ (Ev.err # "nil") = (IF Ev.role = "ta" THEN ha[Ev.s] = "fail" ELSE rfail'[Ev.s]) /\ Consume
+\* a job of a context (up, before, after): executed on behalf of some run that is at that point
+\* (the log names the context, not the run)
+TCtxStart == /\ Is("CmdStart") /\ Ev.role \in {"up", "cb", "ca"}
+             /\ \E s \in Stages : ctx[s] = Ev.c /\ NextOp(s) = Ev.role /\ CmdStart(s)
+             /\ Consume
+TCtxEnd == /\ Is("CmdEnd") /\ Ev.role \in {"up", "cb", "ca"}
+           /\ \E s \in Stages : ctx[s] = Ev.c /\ role[s] = Ev.role /\ CmdEnd(s)
+           /\ ((Ev.err # "nil") = (Ev.role = "up" /\ upFails[Ev.c])) /\ Consume
+TDownStart == /\ Is("CmdStart") /\ Ev.role = "down" /\ DownStart(Ev.c) /\ Consume
+TDownEnd == /\ Is("CmdEnd") /\ Ev.role = "down" /\ DownEnd(Ev.c) /\ Consume
 TDone == /\ Is("done") /\ loop /\ (\A s \in Stages : status[s] \notin {"W", "R"} /\ gpc[s] \in {"none", "fin"})
          /\ gerr = Ev.err /\ (\A s \in Stages : status[s] = Ev.final[s])
          /\ loop' = FALSE /\ Consume
-         /\ UNCHANGED <<cfgv, status, gerr, gpc, rpc, done, crun, rfail>>
-TNext == TReset \/ TStLoop \/ TStDupCancel \/ TStPublish \/ TEnter \/ TRet \/ TRunEnter \/ TRunExit \/ TCmdStart \/ TCmdEnd \/ TDone
+         /\ UNCHANGED <<cfgv, status, gerr, gpc, rpc, pt, role, done, rfail, ran, upst, dn>>
+\* the process has exited: every context that was used has been taken down
+TEnd == /\ Is("end") /\ AllOver /\ Consume /\ UNCHANGED vars
+TNext == TReset \/ TStLoop \/ TStDupCancel \/ TStPublish \/ TEnter \/ TRet \/ TRunEnter \/ TRunExit \/ TCmdStart \/ TCmdEnd
+         \/ TCtxStart \/ TCtxEnd \/ TDownStart \/ TDownEnd \/ TDone \/ TEnd
 HW == TLCSet(1, IF TLCGet(1) < l THEN l ELSE TLCGet(1))
 Accepted == TLCGet(1) = Len(Log) + 1
 Matched == PrintT(<<"MATCHED", ToJson([upto |-> TLCGet(1) - 1, of |-> Len(Log)])>>)
